@@ -24,7 +24,7 @@ func CCFromTransfers() string {
 
 // CCFromTransfer returns path to store key.
 func CCFromTransfer(id string) string {
-	return path.Join(CCFromTransfers(), id)
+	return CCFromTransfers() + id
 }
 
 // CCToTransfers returns path to store key.
@@ -34,5 +34,5 @@ func CCToTransfers() string {
 
 // CCToTransfer returns path to store key.
 func CCToTransfer(id string) string {
-	return path.Join(CCToTransfers(), id)
+	return CCToTransfers() + id
 }
